@@ -5,7 +5,7 @@ spectator has received is the host's sequence of real inputs" is derived along t
 State: the host session with its game's timeline, and the spectator with the rows it has received
 so far (`Hs`) and the number of frames it has handed out (`served`) — the spectator world of
 `Proofs/SpecRing.lean`. Steps: any step of the host's own world (`SStep`: local inputs, cell writes,
-calls, arrivals of remote players' inputs), `advance_frame` of the spectator, and the arrival of
+calls, arrivals of remote players' inputs), `set_input_delay` calls of the host's local players, `advance_frame` of the spectator, and the arrival of
 the NEXT row at the spectator: the frame right after the last one it holds, which the host has
 already offered to its spectator endpoints (`next_spectator_frame` is beyond it), carrying for
 every player what the host's queue of that player holds for that frame. That rule is what the
@@ -28,6 +28,10 @@ abbrev SpecSt := Spectator × List (List Input) × Nat
 
 inductive HSStep : ((P2P × TLState) × SpecSt) → ((P2P × TLState) × SpecSt) → Prop
   | host (a a' : P2P × TLState) (sp : SpecSt) : SStep a a' → HSStep (a, sp) (a', sp)
+  /-- the host's user changes the input delay of a local player -/
+  | hostDelay (s s' : P2P) (t : TLState) (sp : SpecSt) (now handle delay : Nat) (r : Except GgrsError Unit) :
+      handle ∈ s.localPlayerHandles → handle < s.sync.queues.length →
+      s.setInputDelay now handle delay = .ok (s', r) → HSStep ((s, t), sp) ((s', t), sp)
   | specAdvance (a : P2P × TLState) (s s' : Spectator) (Hs : List (List Input)) (served : Nat)
       (res : Except GgrsError (List Request)) : s.advanceAfterPoll = .ok (s', res) →
       HSStep (a, (s, Hs, served)) (a, (s', Hs, served + (match res with | .ok reqs => reqs.length | .error _ => 0)))
@@ -116,6 +120,29 @@ theorem HSInv_step (x y : (P2P × TLState) × SpecSt) (h : ∃ gh, HSInv x gh) (
     obtain ⟨a1, a2⟩ := h.rows f hf p (by rw [← hnq]; exact hp)
     have hp' := hpre p
     exact ⟨by have := hp'.1; omega, by rw [hp'.2 f a1]; exact a2⟩
+  | hostDelay s s' t sp now handle delay r hloc hp hset =>
+    obtain ⟨gh', hinv', hg', hcase, _, _, _, _, hnsf, _, _, _, hq⟩ :=
+      setInputDelay_spec s s' gh t [] now handle delay r h.sess h.glue hloc hp hset
+    have hpre : ∀ p, PrefixOf (gh.specs p).vals (gh'.specs p).vals := by
+      intro p
+      rcases hcase with he | he
+      · rw [he]; exact PrefixOf.refl _
+      · rw [he]
+        unfold ghDelay
+        by_cases hpe : p = handle
+        · subst hpe
+          simp only [if_true]
+          obtain ⟨k, hv, _, _⟩ := setDelay_facts (gh.specs p) delay
+          rw [hv]
+          exact prefixOf_append _ _
+        · simp only [hpe, if_false]
+          exact PrefixOf.refl _
+    refine ⟨gh', hinv', hg', by show 0 ≤ s'.nextSpectatorFrame; rw [hnsf]; exact h.nsf, h.spec, ?_,
+      by show (sp.2.1.length : Int) ≤ s'.nextSpectatorFrame; rw [hnsf]; exact h.offered⟩
+    intro f hf p hp'
+    obtain ⟨a1, a2⟩ := h.rows f hf p (by rw [← hq]; exact hp')
+    have hp2 := hpre p
+    exact ⟨by have := hp2.1; omega, by rw [hp2.2 f a1]; exact a2⟩
   | specAdvance a s s' Hs served res hadv =>
     exact ⟨gh, h.sess, h.glue, h.nsf,
       SpecInv_step (s, Hs, served) _ h.spec (SpStep.advance s s' Hs served res hadv), h.rows, h.offered⟩
